@@ -141,15 +141,20 @@ def stateful_eval(
         variables.update(get_expression_variables(code, env, aliases))
 
     # Extract the nodes of the graph that correspond to stateful transforms
-    stateful_nodes: dict[str, ast.Call] = {}
+    # (the same call may occur more than once in an expression, in which case
+    # every occurrence shares the same state)
+    stateful_nodes: list[tuple[str, ast.Call]] = []
     for node in ast.walk(code):
         if _is_stateful_transform(node, env):
-            stateful_nodes[_restore_aliased_names(format_expr(node), aliases)] = cast(
-                ast.Call, node
+            stateful_nodes.append(
+                (
+                    _restore_aliased_names(format_expr(node), aliases),
+                    cast(ast.Call, node),
+                )
             )
 
     # Mutate stateful nodes to pass in state from a shared dictionary.
-    for name, node in stateful_nodes.items():
+    for name, node in stateful_nodes:
         if name not in state:
             state[name] = {}
         node.keywords.append(
